@@ -10,6 +10,8 @@ Structural clauses decided:
     the owner's removals (and TTL) shrinks the flow cache; the reader is fed the IP payload; reported endpoints pair address and port
  R4 size cap: records above 64 KiB are refused (buffer cleared, error) before parsing
  C18.R2 the parallel dispatch hash looks at the connection identity only
+ W.R1 / W.R3 / C11.R1 pool built with the limits in their own positions, batches processed in arrival order, reader growth discipline;
+ R3 (also) a segment bypasses the reader only when it has no payload or belongs to no TLS flow (all entry->return paths examined)
 """
 from ..engine import cfg as C
 from ..engine import paths as PA
